@@ -87,6 +87,19 @@ def oracle(sc, out):
         if o.startswith("reset-failed"):
             return "harness could not start a node: " + o
         kv = kvs(op)
+        if ws[0] == "slow":
+            okv = kvs(o)
+            if "L" not in okv:
+                return f"`{op}`: {o}"
+            qmax, k, L = int(kv["qmax"]), int(kv["k"]), int(okv["L"])
+            over = qmax > 0 and k * L > qmax
+            if over and (okv["closed"] != "1" or okv["code"] != "3008"):
+                return (f"`{op}`: {k * L} bytes were pending with ClientQueueMaxSize={qmax} but the connection "
+                        f"was not closed as slow (closed={okv['closed']} code={okv['code']})")
+            if not over and okv["closed"] == "1":
+                return (f"`{op}`: only {k * L} bytes were pending with ClientQueueMaxSize={qmax} but the connection "
+                        f"was closed (code={okv['code']})")
+            continue
         if ws[0] == "reset":
             limit, maxlen = int(kv["limit"]), int(kv["maxlen"])
             prev = {"n": 0, "m": 0}
@@ -155,6 +168,12 @@ def canon(line):
 def split_scenarios(ops):
     scs, cur = [], []
     for op in ops:
+        if op.split()[0] == "slow":
+            if cur:
+                scs.append(cur)
+            scs.append([op])
+            cur = []
+            continue
         if op.split()[0] == "reset" and cur:
             scs.append(cur)
             cur = []
@@ -204,7 +223,11 @@ def run(ctx):
         scs = split_scenarios(json.load(open(ctx.replay)).get("ops", []))
     else:
         corpus = [l.strip() for l in open(os.path.join(here, "corpus.ops")) if l.strip() and not l.startswith("#")]
-        scs = split_scenarios(corpus) + [gen_scenario(ctx.rng) for _ in range(ctx.scale(700, 20000))]
+        scs = split_scenarios(corpus) + [gen_scenario(ctx.rng) for _ in range(ctx.scale(700, 6000))]
+        for _ in range(ctx.scale(40, 400)):
+            qmax = ctx.rng.choice([0, 155, 156, 157, 200, 208, 520, 1000, 1040])
+            k = ctx.rng.choice([0, 1, 2, 3, 4, 5, 9, 10, 11, 19, 20, 30])
+            scs.append([f"slow qmax={qmax} k={k}"])
     ops = [op for s in scs for op in s]
     impl = ctx.go_run(binary, "TestVerifC37", ops, timeout=ctx.scale(240, 1500))
     ctx.log(f"implementation ran {len(impl)}/{len(ops)} lines")
@@ -220,6 +243,8 @@ def run(ctx):
         mout = model[pos:pos + len(s)]
         pos += len(s)
         out = out + ["<missing>"] * (len(s) - len(out))
+        if s[0].startswith("slow"):
+            ctx.count("slow:closed=" + kvs(out[0]).get("closed", "?"))
         refused = any(kvs(o).get("res") in ("limit", "bad", "already", "disconnect", "failed") for o in out)
         ctx.record("\n".join(s), nontrivial=refused or any("complete" in op for op in s))
         for op, o in zip(s, out):
@@ -253,7 +278,7 @@ def run(ctx):
                 ctx.violation("property", smsg, signature=signature(small, smsg, so),
                               replay={"ops": small, "impl": so, "original": s})
             continue
-        if mout:
+        if mout and not s[0].startswith("slow"):
             a = [canon(x) for x in out]
             b = [canon(x) for x in mout + ["<missing>"] * (len(s) - len(mout))]
             for i, op, x, y in diff_lines(s, a, b):
